@@ -5,9 +5,21 @@ import os, sys, json, subprocess, tempfile, shutil, re
 HERE = os.path.dirname(os.path.abspath(__file__)); VERIF = os.path.dirname(HERE)
 sd = os.path.join(VERIF, 'seeded')
 rows = []
+# optional: seeded_matrix.py <prefix>  re-runs only the seeds whose id starts with <prefix>; the other rows are kept from RESULTS.md
+PREFIX = sys.argv[1] if len(sys.argv) > 1 else ''
+old_rows = {}
+if PREFIX and os.path.exists(os.path.join(sd, 'RESULTS.md')):
+    for line in open(os.path.join(sd, 'RESULTS.md')):
+        cells = [c.strip() for c in line.strip().strip('|').split(' | ')]
+        if len(cells) >= 5 and cells[0] not in ('seed', '---') and not cells[0].startswith('-'):
+            old_rows[cells[0]] = tuple(cells[:4]) + (' | '.join(cells[4:]),)
 for d in sorted(os.listdir(sd)):
     mp = os.path.join(sd, d, 'meta.json')
     if not os.path.exists(mp):
+        continue
+    if PREFIX and not d.startswith(PREFIX):
+        if d in old_rows:
+            rows.append(old_rows[d])
         continue
     meta = json.load(open(mp))
     prop = meta['property']
@@ -18,13 +30,13 @@ for d in sorted(os.listdir(sd)):
         if r.returncode != 0:
             meta['detected_by'] = None
             meta['detection_note'] = 'patch no longer applies to the current tree'
-            rows.append((d, prop, 'n/a', 'patch no longer applies', meta.get('needs', '')))
+            rows.append((d, prop, 'n/a', 'patch no longer applies', ' '.join(str(meta.get('needs', '')).replace('|', '/').split())[:200]))
         else:
             r = subprocess.run([os.path.join(VERIF, 'check'), prop, '--no-evidence', '--repo', tmp], cwd=VERIF, stdout=subprocess.PIPE, stderr=subprocess.STDOUT, text=True, env=dict(os.environ, VERIF_NO_SELFTEST='1'))
             keys = re.findall(r'\[(?:violated|UNRECOGNISED|ANCHOR-MISSING|BELOW-FLOOR)\]\s+(\S+)', r.stdout)
             meta['detected_by'] = sorted(set(keys))
             meta['check_exit'] = r.returncode
-            rows.append((d, prop, 'caught' if r.returncode == 1 and keys else 'MISSED', ', '.join(sorted(set(keys))[:4]), meta.get('needs', '')))
+            rows.append((d, prop, 'caught' if r.returncode == 1 and keys else 'MISSED', ', '.join(sorted(set(keys))[:4]), ' '.join(str(meta.get('needs', '')).replace('|', '/').split())[:200]))
         json.dump(meta, open(mp, 'w'), indent=1)
     finally:
         shutil.rmtree(tmp, ignore_errors=True)
